@@ -292,6 +292,12 @@ pub fn fail_injection<S: USet>(e: &mut Eng<S>, hists: usize, steps: usize) {
             }
             e.op_ins(0, mx);
             forced.push((0, k));
+        } else {
+            // a small inline set, then an extend that has to leave the word (the wrappers may route `extend`
+            // of an inline set through another path than the insert loop)
+            forced.push((10, 7));
+            forced.push((0, 3));
+            forced.push((0, 1));
         }
         for _ in 0..steps {
             e.step += 1;
